@@ -60,6 +60,57 @@ Definition P_tx (E : env) (p : params) (W : wasm) (rb : addr -> option share_ent
   then (forall a d, D a d = 0) /\ (forall c, In c scope -> ra c = rb c)
   else P_pay E p rb t D /\ P_reg E W t class rb ra scope.
 
+(* -------------------------------------------------------------------- parameters with the same meaning *)
+
+(** is denom [d] one that takes part in fee sharing under [p] *)
+Definition allows (p : params) (d : denom) : bool := is_nil (p_allowed p) || mem d (p_allowed p).
+
+(** Two parameter values mean the same to the property: same switch, same share, the same denoms
+    allowed (the spelling of AllowedDenoms — order, repeats — is irrelevant).  What
+    ModuleParams.Sanitize may do to a valid value without breaking the property. *)
+Definition params_same (p q : params) : Prop :=
+  p_enabled p = p_enabled q /\ p_share p = p_share q /\ forall d, allows p d = allows q d.
+
+Lemma params_same_refl p : params_same p p.
+Proof. repeat split. Qed.
+
+Lemma params_same_sym p q : params_same p q -> params_same q p.
+Proof. intros (H1 & H2 & H3). repeat split; auto. Qed.
+
+Lemma params_same_trans p q r : params_same p q -> params_same q r -> params_same p r.
+Proof.
+  intros (H1 & H2 & H3) (K1 & K2 & K3). split; [congruence|]. split; [congruence|].
+  intro d. rewrite H3. apply K3.
+Qed.
+
+Lemma allowed_amount_same p q fee d : params_same p q -> allowed_amount p fee d = allowed_amount q fee d.
+Proof. intros (_ & _ & H). unfold allowed_amount. specialize (H d). unfold allows in H. rewrite H. reflexivity. Qed.
+
+Lemma eff_recipients_same p q rl ms : params_same p q -> eff_recipients p rl ms = eff_recipients q rl ms.
+Proof. intros (H & _ & _). unfold eff_recipients. rewrite H. reflexivity. Qed.
+
+(** the property read against [p] is the property read against any [q] with the same meaning *)
+Lemma P_pay_same E p q rl t D : params_same p q -> P_pay E p rl t D -> P_pay E q rl t D.
+Proof.
+  intros Hs. unfold P_pay. cbv zeta.
+  rewrite <- (eff_recipients_same p q rl (t_msgs t) Hs).
+  intros [Hc (qq & H0 & H1 & H2 & H3 & H4)]. split; [exact Hc|].
+  exists qq. destruct Hs as (He & Hsh & Hal).
+  assert (Ha : forall d, allowed_amount q (t_fee t) d = allowed_amount p (t_fee t) d).
+  { intro d. symmetry. apply allowed_amount_same. repeat split; auto. }
+  split; [exact H0|]. split; [exact H1|]. split; [|split].
+  - intro d. rewrite <- Hsh, Ha. apply H2.
+  - intro d. rewrite Ha. apply H3.
+  - exact H4.
+Qed.
+
+Lemma P_tx_same E p q W rb t class D ra scope :
+  params_same p q -> P_tx E p W rb t class D ra scope -> P_tx E q W rb t class D ra scope.
+Proof.
+  intro Hs. unfold P_tx. destruct (Nat.eqb class 1); [auto|].
+  intros [H1 H2]. split; [eapply P_pay_same; eassumption|exact H2].
+Qed.
+
 (* -------------------------------------------------------------------- boolean checker *)
 
 Definition table := list ((addr * denom) * Z).
